@@ -206,8 +206,31 @@ static void swap_tables (const std::vector<std::vector<int> >& contents)
     }
 }
 
+// element whose moves may throw: member and non-member swap must have the same exception
+// specification (the non-member is documented as noexcept (noexcept (lhs.swap (rhs))))
+struct ThrowMove
+{
+  int v;
+  ThrowMove () : v (0) { }
+  ThrowMove (const ThrowMove& o) : v (o.v) { }
+  ThrowMove (ThrowMove&& o) noexcept (false) : v (o.v) { }
+  ThrowMove& operator= (const ThrowMove& o) { v = o.v; return *this; }
+  ThrowMove& operator= (ThrowMove&& o) noexcept (false) { v = o.v; return *this; }
+};
+
+template <typename T, unsigned N>
+static void swap_spec ()
+{
+  typedef gch::small_vector<T, N> A;
+  using std::swap;
+  ++g_eval;
+  if (noexcept (swap (std::declval<A&> (), std::declval<A&> ())) != noexcept (std::declval<A&> ().swap (std::declval<A&> ())))
+    mismatch ("non-member swap and member swap have different exception specifications for N=" + std::to_string (N));
+}
+
 int main (int argc, char **argv)
 {
+  swap_spec<int, 0> (); swap_spec<int, 2> (); swap_spec<ThrowMove, 0> (); swap_spec<ThrowMove, 2> ();
   if (argc > 1) g_lmax = std::atoi (argv[1]);
   std::vector<std::vector<int> > contents;
   all_contents (contents, g_lmax);
